@@ -4,6 +4,7 @@ package c11
 import (
 	"encoding/json"
 	"fmt"
+	"os"
 	"sort"
 	"testing"
 
@@ -65,6 +66,17 @@ func run(c Case) (f *failure, nontrivial bool) {
 			}
 		}
 		problem, inconclusive := w.Apply(st)
+		if os.Getenv("VERIF_TRACE") != "" {
+			fmt.Fprintf(os.Stderr, "step %d %s c%d node%d: now=%v problem=%q\n", i, st.Op, st.C, st.Node, w.Cl.Clock.Now(), problem)
+			for ci, s := range w.S {
+				if s.Connected {
+					fmt.Fprintf(os.Stderr, "   c%d sid=%s alive=%v displaced=%v deadline=%v end=%s closed=%v\n", ci, s.SessionID, s.Alive, s.Displaced, s.Deadline, s.EndCause, s.K.Conn.State().BrokerClosed)
+				}
+			}
+			for _, n := range w.Cl.Nodes {
+				fmt.Fprintf(os.Stderr, "   %s lists %v\n", n.Name, sim.SortedSessions(n))
+			}
+		}
 		if inconclusive {
 			return &failure{problem, true}, nontrivial
 		}
